@@ -111,7 +111,10 @@ func GenPlainToken(t *rapid.T, label string) string {
 
 // GenAnyString draws an arbitrary valid UTF-8 string (possibly empty).
 func GenAnyString(t *rapid.T, label string) string {
-	switch rapid.IntRange(0, 5).Draw(t, label+"K") {
+	switch rapid.IntRange(0, 6).Draw(t, label+"K") {
+	case 6:
+		// texts that look like JSON escapes themselves (a literal backslash followed by an escape letter)
+		return rapid.SampledFrom([]string{`\u0026`, `x\u003cy`, `\u003e\u003c`, `\n`, `\"`, `\\`, `\u00e9`, `a\u0026b&c`, "&amp;", "\u2028", "a&b<c>d", `\\u0026`}).Draw(t, label)
 	case 0:
 		return rapid.SampledFrom([]string{" ", "a b", "a@b", " req=a@b ", `"`, `\`, "<>&", " ", "日本 語", "\t", "\n", "\x00", " ", "user name"}).Draw(t, label)
 	case 1:
